@@ -29,6 +29,7 @@ type c19DialIn struct {
 	DialMs int    `json:"dial_ms"` // proxy.dialtimeout
 	RHTMs  int    `json:"rht_ms"`  // proxy.responseheadertimeout (0 = none)
 	Method string `json:"method,omitempty"`
+	Binary bool   `json:"binary,omitempty"` // c19.bindial: through the real fabio executable
 }
 
 type c19DialOut struct {
@@ -100,27 +101,45 @@ func c19DialOnce(in c19DialIn) (out c19DialOut) {
 	default:
 		tgt = c19Target{Scheme: "https", Host: "foo.com", Skip: true}
 	}
-	cfg := c19Cfg{Dial: int64(in.DialMs) * int64(time.Millisecond), RHT: int64(in.RHTMs) * int64(time.Millisecond),
-		KeepAlive: int64(time.Second), Idle: int64(time.Second), MaxConn: 4}.config()
-	transport.SetConfig(cfg)
-	tbl, err := c19Table(tgt, addr)
-	if err != nil {
-		out.Err = err.Error()
-		return
+	cc := c19Cfg{Dial: int64(in.DialMs) * int64(time.Millisecond), RHT: int64(in.RHTMs) * int64(time.Millisecond),
+		KeepAlive: int64(time.Second), Idle: int64(time.Second), MaxConn: 4}
+	frontURL := ""
+	if in.Binary {
+		f, errs := c19StartFabio(tgt, addr, cc, false, nil, "")
+		if f == nil {
+			out.Err = errs
+			return
+		}
+		defer f.Stop()
+		defer func() {
+			if f.Gone(0) {
+				out.Err = "env: the fabio process exited during the measurement"
+			}
+		}()
+		frontURL = "http://" + f.Addr
+	} else {
+		cfg := cc.config()
+		transport.SetConfig(cfg)
+		tbl, err := c19Table(tgt, addr)
+		if err != nil {
+			out.Err = err.Error()
+			return
+		}
+		globs := route.NewGlobCache(16)
+		p := c19Proxy(cfg.Proxy, func(r *http.Request) *route.Target {
+			return tbl.Lookup(r, "", route.Picker["rnd"], route.Matcher["prefix"], globs, false)
+		})
+		front := httptest.NewServer(p)
+		defer front.Close()
+		frontURL = front.URL
 	}
-	globs := route.NewGlobCache(16)
-	p := c19Proxy(cfg.Proxy, func(r *http.Request) *route.Target {
-		return tbl.Lookup(r, "", route.Picker["rnd"], route.Matcher["prefix"], globs, false)
-	})
-	front := httptest.NewServer(p)
-	defer front.Close()
 	// a proxy without a dial timeout would hang until the kernel gives up (minutes): the client does not wait for that
 	cl := &http.Client{Transport: &http.Transport{DisableKeepAlives: true}, Timeout: time.Duration(in.DialMs)*time.Millisecond + 1500*time.Millisecond}
 	method := in.Method
 	if method == "" {
 		method = "GET"
 	}
-	req, err := http.NewRequest(method, front.URL+"/", nil)
+	req, err := http.NewRequest(method, frontURL+"/", nil)
 	if err != nil {
 		out.Err = "request: " + err.Error()
 		return
@@ -193,6 +212,19 @@ func init() {
 				DialMs: []int{60, 100, 200, 400}[r.Intn(4)],
 				RHTMs:  []int{0, 20, 50, 1000, 3000}[r.Intn(5)],
 				Method: c19Methods[r.Intn(len(c19Methods))]}
+		},
+		Run: c19RunDial,
+	})
+	hx.Register(&hx.Stream{
+		Name: "c19.bindial",
+		Corpus: []interface{}{
+			c19DialIn{Kind: "insecure", DialMs: 100, RHTMs: 0, Binary: true},
+		},
+		Gen: func(r *hx.Rand, i int) interface{} {
+			return c19DialIn{Kind: []string{"default", "insecure", "route"}[i%3],
+				DialMs: []int{60, 100, 200}[r.Intn(3)],
+				RHTMs:  []int{0, 20, 1000}[r.Intn(3)],
+				Method: c19Methods[r.Intn(len(c19Methods))], Binary: true}
 		},
 		Run: c19RunDial,
 	})
